@@ -464,6 +464,35 @@ def r4(ctx):
               f"the 1-d id table is built by {steps}: ids must be the positions 0..n-1 of the sorted unique values")
 
 
+def mapping_verbatim(ctx, rule="R5"):
+    """in the supplied-mapping branch of both encoders the id table is the mapping's columns, verbatim (no re-sorting, renumbering or pruning)"""
+    # verbatim use in both encoders
+    for q, cols in ((ENC_T, ["name", "dose", "new_index"]), (ENC_1, ["val", "new_index"])):
+        f, body, ret, elts, jd = encoder_facts(ctx, q)
+        iff = [n for n in body if isinstance(n, ast.If)][0]
+        pos = U(iff.test).replace(" ", "") == "existing_mappingisnotNone"
+        eb = iff.body if pos else iff.orelse
+        table = U(jd.value.args[0])
+        # locals of the branch that only name a component of the mapping are read through
+        benv = {}
+        tstores = []
+        for st_ in eb:
+            if isinstance(st_, ast.Assign) and len(st_.targets) == 1 and isinstance(st_.targets[0], ast.Name) and U(st_.targets[0]) != table:
+                benv[st_.targets[0].id] = st_.value
+            elif isinstance(st_, ast.Assign) and len(st_.targets) == 1 and isinstance(st_.targets[0], ast.Tuple) and isinstance(st_.value, ast.Tuple) \
+                    and len(st_.targets[0].elts) == len(st_.value.elts) and all(isinstance(t, ast.Name) for t in st_.targets[0].elts):
+                for t_, v_ in zip(st_.targets[0].elts, st_.value.elts):
+                    benv[t_.id] = v_
+            else:
+                tstores.append(st_)
+        ok = len(tstores) == 1 and isinstance(tstores[0], ast.Assign) and U(tstores[0].targets[0]) == table and isinstance(tstores[0].value, ast.Call) and call_name(tstores[0].value) == "pandas.DataFrame" \
+            and isinstance(tstores[0].value.args[0], ast.Dict) and [k.value for k in tstores[0].value.args[0].keys] == cols \
+            and [U(inline(v, benv)) for v in tstores[0].value.args[0].values] == [f"existing_mapping[{i}]" for i in range(len(cols))] \
+            and all(U(v) in [f"existing_mapping[{i}]" for i in range(len(cols))] for v in benv.values())
+        ctx.check(rule, f"{f.site()}::mapping-used-verbatim", ok, f"table = DataFrame({{{cols}: existing_mapping[0..{len(cols) - 1}]}}) with no re-sorting or renumbering",
+                  "in the supplied-mapping branch the id table is not built from the mapping's columns verbatim")
+
+
 def r5(ctx):
     init = ctx.fn("data.Screen.__init__")
     g = CFG(init.node)
@@ -493,31 +522,7 @@ def r5(ctx):
         ctx.check("R5", f"{init.site()}::{mp}-validated-before-use", ok, f"a supplied {mp} must pass numpy_array_is_0_indexed_integers before the encoder runs",
                   f"a supplied `{mp}` reaches the encoder without a dominating refusal `{mp} is not None and not numpy_array_is_0_indexed_integers({mp}[-1])`"
                   + ("" if not related else " (a validation exists but does not dominate the encoder call or tests another component)"))
-    # verbatim use in both encoders
-    for q, cols in ((ENC_T, ["name", "dose", "new_index"]), (ENC_1, ["val", "new_index"])):
-        f, body, ret, elts, jd = encoder_facts(ctx, q)
-        iff = [n for n in body if isinstance(n, ast.If)][0]
-        pos = U(iff.test).replace(" ", "") == "existing_mappingisnotNone"
-        eb = iff.body if pos else iff.orelse
-        table = U(jd.value.args[0])
-        # locals of the branch that only name a component of the mapping are read through
-        benv = {}
-        tstores = []
-        for st_ in eb:
-            if isinstance(st_, ast.Assign) and len(st_.targets) == 1 and isinstance(st_.targets[0], ast.Name) and U(st_.targets[0]) != table:
-                benv[st_.targets[0].id] = st_.value
-            elif isinstance(st_, ast.Assign) and len(st_.targets) == 1 and isinstance(st_.targets[0], ast.Tuple) and isinstance(st_.value, ast.Tuple) \
-                    and len(st_.targets[0].elts) == len(st_.value.elts) and all(isinstance(t, ast.Name) for t in st_.targets[0].elts):
-                for t_, v_ in zip(st_.targets[0].elts, st_.value.elts):
-                    benv[t_.id] = v_
-            else:
-                tstores.append(st_)
-        ok = len(tstores) == 1 and isinstance(tstores[0], ast.Assign) and U(tstores[0].targets[0]) == table and isinstance(tstores[0].value, ast.Call) and call_name(tstores[0].value) == "pandas.DataFrame" \
-            and isinstance(tstores[0].value.args[0], ast.Dict) and [k.value for k in tstores[0].value.args[0].keys] == cols \
-            and [U(inline(v, benv)) for v in tstores[0].value.args[0].values] == [f"existing_mapping[{i}]" for i in range(len(cols))] \
-            and all(U(v) in [f"existing_mapping[{i}]" for i in range(len(cols))] for v in benv.values())
-        ctx.check("R5", f"{f.site()}::mapping-used-verbatim", ok, f"table = DataFrame({{{cols}: existing_mapping[0..{len(cols) - 1}]}}) with no re-sorting or renumbering",
-                  "in the supplied-mapping branch the id table is not built from the mapping's columns verbatim")
+    mapping_verbatim(ctx, "R5")
     # the validator's definition, arm by arm (per-path return expressions, locals inlined)
     from engine.astutil import path_returns
     v = ctx.fn("data.numpy_array_is_0_indexed_integers")
